@@ -385,9 +385,10 @@ def check(pid, tier, seed):
                     flags[f] = flags.get(f, 0) + 1
                 if "nt" in toks:
                     distinct.add(hashlib.md5(rec.split("=>")[0].encode()).digest())
-            listed = {f["signature"]: f for f in known.get("findings", []) if f.get("property") == pid or pid in f.get("also", [])}
             for i, rec, v in cl["known"]:
-                sig = v.split()[2]
+                item_pid, sig = v.split()[1], v.split()[2]
+                listed = {f["signature"]: f for f in known.get("findings", [])
+                          if f.get("property") == item_pid or item_pid in f.get("also", [])}
                 if sig in listed:
                     known_seen.append((sig, listed[sig].get("what", "")))
                 else:
